@@ -37,7 +37,7 @@ def host_main(h, spec):
     shm_p = ctx.Process(target=shm_server, args=(h["shm_port"], 64 * 1024 * 1024, cfg.logging_config, f"sCasc{h['id']}"))
     shm_p.start()
     shm_client.ensure()
-    rng = random.Random(f"{spec['seed']}/{h['id']}")
+    rng = random.Random(f"{spec['seed']}/{h.get('index', h['id'])}")   # by host index: host ids depend on the port block
     plan = spec["plan"]
     drops: dict = {}
     real_time_ns = time.time_ns
@@ -181,6 +181,21 @@ def run_scenario(spec):
                 if isinstance(m, DatasetTransmitPayload):
                     fetched.setdefault(m.header.confirm_idx, []).append((m.header.ds.task, bytes(m.value), m.header.deser_fun))
 
+    # commands travel over one persistent PUSH socket per data server (the harness must not lose its own messages:
+    # comms.callback() opens a context per call and gives up after a 1 s linger when the machine is busy)
+    import zmq
+    from cascade.executor.serde import ser_message
+    zctx = zmq.Context()
+    pushers = {}
+    for h in hosts:
+        sck = zctx.socket(zmq.PUSH)
+        sck.setsockopt(zmq.LINGER, 10000)
+        sck.connect(h["daddress"])
+        pushers[h["id"]] = sck
+
+    def send(hid, m):
+        pushers[hid].send(ser_message(m))
+
     idx = 0
     expected_ann = {}
     held_before = {(d["task"], hid) for d in spec["datasets"] for hid in d["preload"]}
@@ -191,16 +206,16 @@ def run_scenario(spec):
         ds, data, df = datasets[c["ds"]]
         if c["op"] == "transmit":
             cmd = DatasetTransmitCommand(source=c["src"], target=c["dst"], daddress=byid[c["dst"]]["daddress"], ds=ds, idx=idx)
-            comms.callback(byid[c["src"]]["daddress"], cmd)
+            send(c["src"], cmd)
             transfers.append((idx, c["ds"], c["src"], c["dst"]))
             idx += 1
         elif c["op"] == "fetch":
             cmd = DatasetTransmitCommand(source=c["src"], target="controller", daddress=spec["caddress"], ds=ds, idx=idx)
-            comms.callback(byid[c["src"]]["daddress"], cmd)
+            send(c["src"], cmd)
             fetches.append((idx, c["ds"], c["src"]))
             idx += 1
         elif c["op"] == "purge":
-            comms.callback(byid[c["host"]]["daddress"], DatasetPurge(ds=ds))
+            send(c["host"], DatasetPurge(ds=ds))
             purged_at.add((c["ds"], c["host"]))
         pump(c.get("wait", 0.0))
     # ---- drive to quiescence: every expected announcement / payload seen, or the budget is used up -----------
